@@ -12,7 +12,7 @@ res = {}
 outp = os.path.join(V, ".work", "mutregress.json"); os.makedirs(os.path.dirname(outp), exist_ok=True)
 for d in ids:
     m = json.load(open(os.path.join(V, "seeded", d, "meta.json")))
-    pid = m["breaks_property"]
+    pid = m.get("checked_by", m["breaks_property"])
     rc, o = sh("git apply %s" % os.path.join(V, "seeded", d, "patch.diff"), "/repo"); assert rc == 0, (d, o)
     t0 = time.time()
     try:
